@@ -1585,7 +1585,11 @@ class Body(RSTState):
         if sequence == "#":
             enumerator = "#"
         elif sequence == "arabic":
-            enumerator = str(ordinal)
+            try:
+                enumerator = str(ordinal)
+            except ValueError:
+                # Beyond the interpreter's limit for converting an integer to a string
+                return None
         else:
             if sequence.endswith("alpha"):
                 if ordinal > 26:
